@@ -489,3 +489,46 @@ func ruleAnyFixedParks(c *Ctx, rule string) {
 	}
 	c.Floor(rule, "Detaching stores in podDelete", 1, n)
 }
+
+// rulePodUseENI: "this pod asked for its own interface" is decided by the
+// pod-eni annotation alone. types.PodUseENI answers true only where the
+// annotation was present and parsed: every return of something other than the
+// constant false is under ok(annotation lookup) ∧ err(ParseBool) == nil.
+func rulePodUseENI(c *Ctx, rule string) {
+	p := c.P
+	c.Rule(rule, "types.PodUseENI answers true only for a pod whose pod-eni annotation is present and parses as a boolean (no other annotation, label or field turns a pod into one the webhook and the controllers treat as owning an interface)")
+	fn := p.Func("types", "PodUseENI")
+	if fn == nil {
+		c.Unres(rule, "types.PodUseENI", "not found")
+		return
+	}
+	info := fn.Info()
+	var okId *ast.Ident
+	var parseErr types.Object
+	ast.Inspect(fn.Decl.Body, func(k ast.Node) bool {
+		as, ok := k.(*ast.AssignStmt)
+		if !ok || len(as.Lhs) != 2 || len(as.Rhs) != 1 {
+			return true
+		}
+		switch r := ast.Unparen(as.Rhs[0]).(type) {
+		case *ast.IndexExpr:
+			if o := identObjSel(info, r.Index); o != nil && o.Name() == "PodENI" {
+				okId, _ = ast.Unparen(as.Lhs[1]).(*ast.Ident)
+			}
+		case *ast.CallExpr:
+			if f := Callee(info, r); f != nil && f.Name() == "ParseBool" {
+				parseErr = identObj(info, as.Lhs[1])
+			}
+		}
+		return true
+	})
+	if okId == nil || parseErr == nil {
+		c.Undec(rule, "PodUseENI: annotation lookup and ParseBool", p.Pos(fn.Decl), fn.Key(), "v, ok := annotations[PodENI]; b, err := strconv.ParseBool(v)", "not recognised")
+		return
+	}
+	n := c.ResultOnlyUnderF(rule, "PodUseENI: true only for a present, well-formed pod-eni annotation", fn, 0, true,
+		"ok(annotations[PodENI]) ∧ err(ParseBool) == nil", func(e *FactEngine) *Formula {
+			return mkAnd(e.Cond(okId), e.eqAtom(objID(parseErr), "nil", []string{objID(parseErr)}))
+		})
+	c.Floor(rule, "returns of PodUseENI that can be true", 1, n)
+}
